@@ -55,7 +55,8 @@ var forgeries = []string{"flag-cleared-trailer-kept", "flag-cleared-no-trailer",
 	"plaintext-unsigned-wrong-id", "flag-set-no-trailer", "flag-set-ff-only", "plaintext-flag-set-no-trailer", "plaintext-flag-set-ff-only", "pad-bytes-wrong", "pad-length-large", "pad-longer-than-data", "pad-overlong",
 	"addressed-to-bmc-session-id", "addressed-to-null-session", "addressed-to-byteswapped-id",
 	"pad-two-bytes-swapped", "pad-reversed", "pad-zero-filled", "pad-same-bit-in-two-bytes",
-	"authcode-zero-tail-cut", "authcode-zero-appended"}
+	"authcode-zero-tail-cut", "authcode-zero-appended",
+	"plaintext-unsigned-grid", "encrypted-unsigned-grid"}
 
 // commands with a response body whose value the forger changes
 var cmdNames = []string{"GetSystemGUID", "GetDeviceID", "GetChannelAuthenticationCapabilities"}
@@ -193,6 +194,17 @@ func attackDatagram(a Attack, R []byte, s *simbmc.Session, b *simbmc.BMC, other 
 		p.enc, p.trailer, p.payload, p.ffOnly = false, false, forged, 1+a.Param%3
 	case "plaintext-unsigned":
 		p.enc, p.auth, p.trailer, p.payload = false, false, false, forged
+	case "plaintext-unsigned-grid", "encrypted-unsigned-grid":
+		// no flag, no trailer, and every combination of a session ID an exemption could
+		// be keyed on (null session, ours, the managed system's, all ones) with a
+		// sequence number such an exemption could be keyed on (0, the authentic one, 1,
+		// the next one); Param%16 == 0 is the datagram a session-less handler would send
+		p.auth, p.trailer = false, false
+		if a.Forge == "plaintext-unsigned-grid" {
+			p.enc, p.payload = false, forged
+		}
+		p.sid = []uint32{0, s.ConsoleID, s.ID, 0xFFFFFFFF}[a.Param%16/4]
+		p.seq = []uint32{0, pkt.Seq, 1, pkt.Seq + 1}[a.Param%4]
 	case "plaintext-unsigned-wrong-id":
 		p.enc, p.auth, p.trailer, p.payload = false, false, false, forged
 		p.sid = s.ConsoleID + 1 + uint32(a.Param)
